@@ -315,6 +315,15 @@ def _t_cdf(task, T):
             T.check(abs(p[k] - pe[k]) <= eps, G, case, "cdf.ecdf: cdf equals the empirical cdf of the model's own samples within Monte-Carlo error",
                     f"x={pts[k]}: cdf {p[k]!r}, empirical {pe[k]!r} (n={n}, eps={eps:.4g})", task)
         if task.get("default_sample"):
+            # whole-number coordinates spelled as integers (list of ints, integer ndarray) = the same point spelled as floats
+            pi = [int(round(pts[0][0])) or 1, int(round(pts[0][1])) or 1]
+            with warnings.catch_warnings():
+                warnings.simplefilter("ignore")
+                c_f = float(np.asarray(t.cdf(np.array([[float(pi[0]), float(pi[1])]])), float).reshape(-1)[0])
+                c_i = float(np.asarray(t.cdf(np.array([pi], dtype=np.int64)), float).reshape(-1)[0])
+                c_l = float(np.asarray(t.cdf([pi]), float).reshape(-1)[0])
+            T.check(c_i == c_f and c_l == c_f, G, case, "cdf.ecdf: cdf equals the empirical cdf of the model's own samples (point given with integer coordinates)",
+                    f"x={pi}: cdf {c_f!r} for float coordinates, {c_i!r} for an integer ndarray, {c_l!r} for a list of ints", task)
             pe2 = np.asarray(t.empirical_cdf(arg), float).reshape(-1)
             eps2 = dkw_eps(1_000_000)
             T.check(t._sample is not None and len(t._sample) == 1_000_000, G, case, "cdf.ecdf: the default empirical cdf uses the model's own sample of 1e6", "no cached sample", task)
